@@ -90,4 +90,21 @@ def observe_rows(vec: Dict[str, Any]) -> Dict[str, Any]:
         except Exception as e:  # noqa: BLE001
             out["kind"] = "Leak:" + type(e).__name__
             out["msg"] = str(e)[:160]
+        if vec["backend"] == "polars" and vec["mode"] == "subsample":
+            # container kind preserved (C04): LazyFrame in -> LazyFrame out; stand-alone Column on a DataFrame
+            import polars as pl
+            import pandera.polars as pap
+
+            try:
+                r = schema.validate(df.lazy(), **dict(kw, lazy=False))
+                out["lazyframe_type_ok"] = isinstance(r, pl.LazyFrame)
+            except (pa0.errors.SchemaErrors, pa0.errors.SchemaError):
+                out["lazyframe_type_ok"] = True
+            except Exception as e:  # noqa: BLE001
+                out["lazyframe_type_ok"] = "Leak:" + type(e).__name__
+            try:
+                r = pap.Column(pl.Int64, name="b").validate(df)
+                out["column_type_ok"] = type(r) is type(df)
+            except Exception as e:  # noqa: BLE001
+                out["column_type_ok"] = "raises:" + type(e).__name__
     return out
